@@ -122,7 +122,7 @@ class Cache:
 
         elif isinstance(node, verbs.Rename):
             res.name_to_uuid = {
-                (new_name if (new_name := node.name_map.get(name)) else name): uid
+                (new_name if (new_name := node.name_map.get(name)) is not None else name): uid
                 for name, uid in self.name_to_uuid.items()
             }
             res.uuid_to_name = {uid: name for name, uid in res.name_to_uuid.items()}
